@@ -250,6 +250,9 @@ def spell_reg(rng, n):
 
 def spell_int(rng, v, paren_ok=False):
     k = rng.randrange(5 if paren_ok else 4)
+    if paren_ok and rng.random() < 0.2:
+        from ..gen import exprs
+        return exprs.spell_value(rng, v)     # a derived quantity: `N // D`, `A - B`, `X >> S`, `~Y` ... with the same value
     if paren_ok and 33 <= v <= 126 and chr(v) not in "'\\" and rng.random() < 0.3:
         return "'%s'" % chr(v)              # a character literal is an integer expression of its own
     if paren_ok and rng.random() < 0.1:
